@@ -494,6 +494,8 @@ class World:
         k = ex.choose(conds)
         kind, en = outcomes[k]
         if kind == "return":
+            for g, delta in (getattr(con, "ghost_effect_on_return", None) or {}).items():
+                ex.ghost[g] = ex.ghost_get(g) + delta          # counts calls that RETURNED
             return res
         e = evals[en]
         e.fields.pop("__abstract__", None)
@@ -1024,6 +1026,12 @@ class World:
             ent = self.ext_table.get(key + "." + name)
             if ent is not None:
                 return ent(ex) if callable(ent) and not isinstance(ent, Val) else ent
+            if c.py.__module__ == "builtins" and callable(getattr(c.py, name, None)) and not isinstance(getattr(c.py, name), type):
+                # a method of a builtin class read as an attribute (str.format looked up by getattr(origin, 'format', None)):
+                # a function object -- truthy, not a str; calling it is not modelled
+                def _uncallable(ex_, a, k, nm="%s.%s" % (c.py.__name__, name)):
+                    raise Unsupported("call of builtin method object %s" % nm)
+                return VFunc("%s.%s" % (c.py.__name__, name), _uncallable)
             raise Unsupported("class attribute %s.%s" % (c.name, name))
         # symbolic class
         if name == "__name__":
@@ -1237,7 +1245,14 @@ class World:
                     ck = a[0].const() if isinstance(a[0], VStr) else None
                     dflt = a[1] if len(a) > 1 else VNone()
                     if ck is None:
-                        raise Unsupported("dict.get with symbolic key")
+                        # symbolic key on an enumerated dict with string keys: the entry whose key it equals, else the default
+                        if not all(isinstance(kk, str) for kk in d.items) or not isinstance(a[0], (VStr, VObj, VNone)):
+                            raise Unsupported("dict.get with symbolic key")
+                        kb = ex_.box(a[0])
+                        r = ex_.box(dflt)
+                        for kk, (p, v) in reversed(list(d.items.items())):
+                            r = z3.If(z3.And(p, kb == sym.box_str(z3.StringVal(kk))), ex_.box(v), r)
+                        return VObj(r)
                     if ck not in d.items:
                         return dflt
                     p, v = d.items[ck]
@@ -1361,6 +1376,9 @@ class World:
         self.ext.use(ex, "dict[k] = v: keys hashable (TypeError otherwise); equal key overwritten in place, else appended")
         hashable = z3.Function("hashable", V, B)
         if not isinstance(key, (VStr, VInt, VBool, VNone, VFloat, VCls)):
+            # instances of the immutable scalar builtins are hashable
+            ex.assume(z3.Implies(z3.Or(kb == sym.NONE, *[sym.sub(sym.ty(kb), self.classes.of_py(py).t) for py in (str, int, float, bytes)]),
+                                 hashable(kb)))
             if not ex.branch(hashable(kb)):
                 ex.throw("TypeError", node, origin="unhashable-key")
         self.ext.mutated(ex, m, "setitem")
@@ -1637,6 +1655,7 @@ class World:
                 ex.assume(ex.forall(0, n, lambda j: ex.forall(0, j, lambda i: z3.Not(same(z3.Select(arr, i), z3.Select(arr, j))))))
             elif v.sk in ("set", "frozenset"):
                 ex.assume(n == v.n)
+            r.member_src = ("same", self.ext.snapshot_members(v), r.arr, r.n)      # same members: ask the source
             return r
         raise Unsupported("%s(%r)" % (sk, v))
 
